@@ -292,6 +292,7 @@ Open Scope Z_scope.
 
 def generate_pool_settings(repo=None):
     import ast
+    global ast_mod
     repo = repo or common.REPO
     mr = os.path.join(repo, "joblib", "_memmapping_reducer.py")
     node, _ = translate.find_function(mr, "_get_temp_dir")
@@ -349,7 +350,26 @@ def generate_pool_settings(repo=None):
             raise translate.TranslateError("translation of %s no longer matches: %s(..., **%s) not found" % (qual, ctor, var))
         first, last = names[order[0]], names[order[1]]          # later entries of the merge win
         return "match %s with Some v => Some v | None => %s end" % (last, first)
+    # loky: is temp_folder part of the reuse decision, and does a REUSED executor get the new TemporaryResourcesManager?
+    exf = os.path.join(repo, "joblib", "executor.py")
+    fn, _ = translate.find_function(exf, "MemmappingExecutor.get_memmapping_executor")
+    named = [a.arg for a in fn.args.args + fn.args.kwonlyargs]
+    if "temp_folder" not in named or fn.args.kwarg is None or fn.args.kwarg.arg != "backend_args":
+        raise translate.TranslateError("translation of get_memmapping_executor no longer matches: signature")
+    key_src = "\n".join(ast.unparse(st) for st in fn.body if "executor_args" in ast.unparse(st))
+    key_has_tf = "temp_folder" in key_src
+    mgr = [st for st in ast.walk(fn) if isinstance(st, ast.Assign) and ast.unparse(st.targets[0]) == "_executor._temp_folder_manager"]
+    if len(mgr) != 1 or ast.unparse(mgr[0].value) != "manager":
+        raise translate.TranslateError("translation of get_memmapping_executor no longer matches: manager assignment")
+    guards = [n for n in ast.walk(fn) if isinstance(n, ast.If) and mgr[0] in n.body]
+    if len(guards) > 1 or (guards and ast.unparse(guards[0].test) != "not executor_is_reused"):
+        raise translate.TranslateError("translation of get_memmapping_executor no longer matches: guard of the manager assignment")
+    new_mgr_on_reuse = not guards
     text = POOL_HEADER + (
+        "(* joblib/executor.py (get_memmapping_executor): does the reuse decision look at temp_folder; is the new\n"
+        "   TemporaryResourcesManager(temp_folder) installed on an executor that is REUSED *)\n"
+        "Definition reuse_key_has_temp_folder : bool := %s.\nDefinition reused_executor_gets_new_manager : bool := %s.\n\n" % (
+            "true" if key_has_tf else "false", "true" if new_mgr_on_reuse else "false")) + (
         "Definition src_temp_folder (arg env shm : option Z) (tmpdir : Z) : option Z :=\n  let tf := arg in\n%s\n  tf.\n\n"
         "Definition src_mp_pool_kwarg (obj call : option Z) : option Z := %s.\n"
         "Definition src_loky_executor_kwarg (obj call : option Z) : option Z := %s.\n" % (
